@@ -20,6 +20,7 @@ from ..fftalg import INVERSE_SHIFT
 from ..interp import Interp, has_unknown, unknown_atoms
 from ..plf import Rat, Sym, Fn, find_atoms, vkey as vk
 from ..report import AnalysisError
+from ..index import norm_text as norm_text_
 from .c10 import propagator_forms, MOD, NPARAMS
 
 LEVEL = "other"
@@ -198,7 +199,7 @@ def run(rep, tier, root=None):
 
     # ------------------------------------------------ one-step / lens / two-step against the Fresnel integral
     f1, field1, N1, rets1 = forms["oneStepFresnel"]
-    _one(rep, f1, rets1, lambda a: oracle("fresnel_one_step", a), "fresnel_one_step")
+    _one_step_rule(rep, ix, f1, lambda a: oracle("fresnel_one_step", a))
     f3, field3, N3, rets3 = forms["lensAgainst"]
     _one(rep, f3, rets3, lambda a: oracle("lens_focal_plane", a), "lens_focal_plane")
 
@@ -215,19 +216,21 @@ def run(rep, tier, root=None):
     n_two = 0
 
     def one_step(U_, d_in, Dz, tau):
+        # the textbook one-step evaluation (oracle text), forward or mirrored kernel
         if tau > 0:
-            r_ = I.returns(f1, [U_, w2, d_in, Dz])
-            return r_[0][1] if len(r_) == 1 else None
-        r_ = I.returns(f1, [U_.conj(), w2, d_in, -Dz])
-        return r_[0][1].conj() if len(r_) == 1 and isinstance(r_[0][1], Rat) else None
+            return oracle("fresnel_one_step", [U_, w2, d_in, Dz])
+        r_ = oracle("fresnel_one_step", [U_.conj(), w2, d_in, -Dz])
+        return r_.conj() if isinstance(r_, Rat) else None
     for conds, cnf, v in paths2:
         n_two += 1
         tag = "%s[%s]" % (f2.fq, "; ".join(conds) or "main path")
         if not isinstance(v, Rat) or has_unknown(v):
             rep.unknown("G5.two-step", tag, "unrecognised constructs", f2.where())
             continue
-        unit = any("ZeroDivisionError" in c for c in conds)
         m = a2 / a1
+        unit = any("ZeroDivisionError" in c for c in conds) or any(
+            isinstance(val_, Rat) and isinstance(val_.single_atom(), Fn) and val_.single_atom().name == "cmp" and val_.single_atom().args[0] == "=="
+            and tr_ and {vk(val_.single_atom().args[1]), vk(val_.single_atom().args[2])} == {vk(m), vk(Rat.const(1))} for val_, tr_ in cnf)
         Dz1 = zz / (1 + m) if unit else zz / (1 - m)
         Dz2 = zz - Dz1
         matched = None
@@ -281,7 +284,72 @@ def run(rep, tier, root=None):
     purity_obligations(rep, ix, [ix.func(MOD, n) for n in NPARAMS] + [ix.func("aotools.fouriertransform", n) for n in ("ft2", "ift2")],
                        "G6.pure", "composing or comparing propagators on the same input field gives different results depending on "
                        "which one ran first")
+    # G10: a special case must not be detected through ZeroDivisionError - float division by a NumPy scalar zero returns
+    # inf with a warning instead of raising, so the handler is never reached for such arguments
+    import ast as _ast
+    n_g10 = 0
+    for name_ in NPARAMS:
+        fn_ = ix.func(MOD, name_)
+        for t_ in _ast.walk(fn_.node):
+            if isinstance(t_, _ast.Try):
+                for h_ in t_.handlers:
+                    names_ = [norm_text_(x_) for x_ in ([h_.type] if h_.type is not None and not isinstance(h_.type, _ast.Tuple) else (h_.type.elts if h_.type is not None else []))]
+                    if any(n_.split(".")[-1] in ("ZeroDivisionError", "ArithmeticError") for n_ in names_) and \
+                            any(isinstance(x_, _ast.BinOp) and isinstance(x_.op, _ast.Div) for b_ in t_.body for x_ in _ast.walk(b_)):
+                        n_g10 += 1
+                        rep.violation("G10.special-case-by-exception", "%s: except %s" % (fn_.fq, "/".join(names_)),
+                                      "a division is guarded by `except %s`: with a NumPy scalar operand (an element of an array of "
+                                      "distances or spacings) the division returns inf and a warning instead of raising, the special case is "
+                                      "not taken and the result is nan everywhere" % "/".join(names_), fn_.where(h_))
+    if not n_g10:
+        rep.ok("G10.special-case-by-exception", "propagators: no special case is dispatched through ZeroDivisionError")
+    # G9: a constant added to a squared radius inside a chirp is a constant phase exp(i k (1 - m) / (2 z) eps), not a harmless
+    # guard: k / z is large
+    I_eps = Interp(ix, square=True)
+    fa_ = ix.func(MOD, "angularSpectrum")
+    I_eps.paths(fa_, I_eps.symbolic_args(fa_, {fa_.params[0]: ("array", "field", "complex")}))
+    rep.check(not I_eps.eps_guards, "G9.no-offset-in-chirp", fa_.fq + ": the quadratic phase factors are those of the squared radii themselves",
+              "a constant %s is added to a squared radius that is multiplied by k (1 - m) / (2 z) in a chirp: every output sample is "
+              "multiplied by exp(i k (1 - m) / (2 z) * %s) (0.3 rad for wvl = 1e-6, z = 1e-3, m = 1.5), so the result differs from the other "
+              "propagators and from the analytic Gaussian beam by a constant phase whenever the magnification is not 1"
+              % (I_eps.eps_guards[:1], I_eps.eps_guards[:1]), fa_.where())
     rep.floor("two-step paths", n_two, 1)
+
+
+def _one_step_rule(rep, ix, f, orc):
+    """oneStepFresnel: on every path the value is the textbook one-step evaluation with the forward kernel, or the same with
+    the mirrored kernel conj(ft2(conj(.))) (written conj(oracle(conj(U), -z))); G7: output sample l sits at
+    tau * lambda z / (N d1) * l, which must be a positive multiple of l for every sign of z the path can be taken with."""
+    p = f.params
+    U = Rat.sym(p[0], ("array", "field", "complex"))
+    w, d1, z = [Rat.sym(x) for x in p[1:4]]
+    I = Interp(ix, square=True)
+    paths = I.paths(f, I.symbolic_args(f, {p[0]: ("array", "field", "complex")}), split="deep")
+    N = Rat.sym("N[%s]" % p[0], ("int", "size"))
+    if not paths:
+        rep.unknown("G5.fresnel-integral", f.fq, "no returning path", f.where())
+    for conds, cnf, v in paths:
+        tag = f.fq + ("[%s]" % "; ".join(conds) if len(paths) > 1 else "")
+        if not isinstance(v, Rat) or has_unknown(v):
+            rep.unknown("G5.fresnel-integral", tag, "unrecognised constructs %s" % [repr(a)[:50] for a in unknown_atoms(v)][:3], f.where())
+            continue
+        fwd = orc([U, w, d1, z])
+        mir = orc([U.conj(), w, d1, -z]).conj()
+        tau = 1 if same_value(_drop_abs(v), _drop_abs(fwd)) else -1 if same_value(_drop_abs(v), _drop_abs(mir)) else None
+        if tau is None:
+            check_equal(rep, "G5.fresnel-integral", "%s == fresnel_one_step (oracle)" % tag, v, fwd, f.where(), what=f.name)
+            continue
+        rep.ok("G5.fresnel-integral", "%s == fresnel_one_step (oracle), %s kernel" % (tag, "forward" if tau > 0 else "mirrored"))
+        feas = _feasible_signs(cnf, z, {Sym(p[1]), Sym(p[2])} | set(N.atoms()))
+        if feas is None:
+            rep.unknown("G7.orientation", tag, "cannot decide the sign of the distance on this path", f.where())
+            continue
+        bad = [sg for sg in feas if sg * tau < 0]
+        rep.check(not bad, "G7.orientation", tag + ": output samples sit at +|lambda z / (N d1)| * index for either sign of z",
+                  "for z %s 0 the %s transform puts output sample l at a negative multiple of l: the field is returned rotated by 180 "
+                  "degrees relative to the other propagators on the same grid (a round trip +z, -z returns the mirrored input)"
+                  % ("<" if -1 in bad else ">", "forward" if tau > 0 else "mirrored"), f.where())
+    rep.sample({"function": f.fq, "paths": len(paths)})
 
 
 def _drop_abs(v):
